@@ -401,6 +401,26 @@ def P_C13(ctx, log, case=None, outcome_kind='ok', outcome_sim=None, **kw):
     return out
 
 
+def setdata_delivery(ctx, log):
+    """'no value is lost', for the values written with set_data: a step is given exactly the values written for its simulator
+    since its previous step, each under the id of the entity that wrote it (permission and ordering are C16's business)"""
+    out = []
+    pending = collections.defaultdict(dict)
+    for l in log:
+        if l[0] == 'SETDATA':
+            _, writer, dest, attr, tok = l[:5]
+            if not any(e['asyn'] and e['a'] == dest and e['b'] == writer for e in ctx.edges): break
+            went = 'e' if len(l) < 6 or l[5] == 0 else f'a{l[5]}'
+            pending[dest][(attr, f'{writer}.{went}')] = tok
+        elif l[0] == 'BEGIN':
+            sid = l[1]
+            got = {(a, k): v for a, m in l[4].get('e', {}).items() for k, v in m.items() if str(v).startswith('set')}
+            if got != pending[sid]:
+                out.append(f'{sid}@{tuple(l[2])}: values written with set_data that arrive: {got}; written since its previous step: {dict(pending[sid])}')
+            pending[sid] = {}
+    return out
+
+
 def P_C16(ctx, log, **kw):
     """set_data register semantics + ordering of an async predecessor behind its agent"""
     out = []
